@@ -119,8 +119,16 @@ func (e *Exec) callFunc(s *State, f *Frame, in ssa.Value, fn *ssa.Function, args
 			return
 		}
 	}
+	// a nested invocation of the function under proof may be given its own (assumed) contract: ghost state that
+	// describes "the message this invocation walks" is per invocation, which the single ghost global cannot express
+	if fn == e.fn && s.pure == 0 {
+		if ext := e.w.externs["recursive:"+full]; ext != nil {
+			e.applyContract(s, f, ext, fn.Signature, args, pos, key, setRes, resType, "recursive:"+full)
+			return
+		}
+	}
 	// contract?
-	if con := e.w.contractFor(fn); con != nil && !(fn == e.fn && false) {
+	if con := e.w.contractFor(fn); con != nil {
 		if con.Opaque && resType != nil {
 			// uninterpreted spec function: the same arguments give the same result, nothing else is known
 			setRes(e.pureResult(s, con, args, resType, fnKey(fn)))
